@@ -359,6 +359,10 @@ class StmtMixin:
         return getattr(node, '_pyvc_func', None)
 
     def ex_While(self, s, st):
+        if self.effect_free(s.test):
+            probe = self.eval(s.test, st.fork())
+            if len(probe) == 1 and probe[0].kind == 'ok' and self.truthy(probe[0].val, probe[0].st) is False:
+                return self.exec_block(s.orelse, st) if s.orelse else [(NORMAL, st)]
         spec = self.loop_spec(s)
         if spec is None:
             raise EngineError(f'while loop without invariant at line {s.lineno}')
